@@ -176,7 +176,15 @@ def run_check(prop: str, tier: str, only: str | None = None, jobs: int = 16, ver
             for e in sr.get("errors", []):
                 checker_errors.append(e)
         except BaseException as ex:  # noqa: BLE001
-            checker_errors.append("stand-in crashed: " + "".join(traceback.format_exception(ex))[-1500:])
+            tb = traceback.extract_tb(ex.__traceback__)
+            inner = tb[-1] if tb else None
+            if inner is not None and "pyoda_time" in inner.filename and "/verif/" not in inner.filename:
+                # the exception was raised by the code under test while the stand-in exercised it on valid inputs:
+                # that is the property failing, not the checker
+                where = f"{os.path.basename(inner.filename)}:{inner.name}"
+                violations.append({"name": f"{prop}.standin-aborted {type(ex).__name__} from {where}", "kind": "standin", "site": where, "detail": f"the code under test raised {type(ex).__name__}: {ex} while the stand-in exercised it: " + " <- ".join(f"{os.path.basename(fr.filename)}:{fr.lineno}" for fr in reversed(tb[-5:])), "contract": "standin", "inputs": {}, "replay": {"confirmed": True}})
+            else:
+                checker_errors.append("stand-in crashed: " + "".join(traceback.format_exception(ex))[-1500:])
 
     # ------------------------------------------------------------------ output
     rdir = os.path.join(VERIF, "replays", prop)
